@@ -1462,6 +1462,10 @@ namespace cds { namespace container {
                     return update_flags::failed;
                 }
 
+                // the node is a routing node (its key has been erased): the key is absent
+                if ( !pNode->is_valued( memory_model::memory_order_relaxed ) && !(nFlags & update_flags::allow_insert))
+                    return update_flags::failed;
+
                 pOld = pNode->value( memory_model::memory_order_relaxed );
                 bInserted = pOld == nullptr;
                 mapped_type pVal = funcUpdate( pNode );
